@@ -116,6 +116,11 @@ type callObs struct {
 	AlertIDs []int `json:"alert_ids,omitempty"` // among the open ones: crypto/tls has handed their close_notify to the socket and waits for it
 	// Close: every socket that was not closed at the return (open or closing) and what became of it (filled in at the end of the case)
 	Linger []lingerObs `json:"linger,omitempty"`
+	// OpenIDs / BusyIDs are the sockets the call SPEAKS ABOUT: those the proxy had used (hence registered) when the call was
+	// issued. The others that were not closed at the return — accepted, not seen registered when the call was issued:
+	// "accepted in the meantime" (held.go) — and what became of them (filled in at the end of the case)
+	LateIDs []int     `json:"late_ids,omitempty"`
+	Late    []lateObs `json:"late,omitempty"`
 }
 
 // lingerObs is one accepted socket that the proxy had not closed when a call of Close returned.
@@ -146,6 +151,9 @@ type connTracker struct {
 	by      map[int]string    // … and on whose behalf (closerOf)
 	closed  map[int]time.Time // … and when it returned
 	alertAt map[int]time.Time // when crypto/tls handed the socket a close_notify (the first one)
+	touched map[int]time.Time // when the proxy first USED the socket (Read, Write or a deadline): its handler has registered it by then
+	readAt  map[int]time.Time // when the proxy first called Read on the socket
+	hold    *acceptHold       // the "accept held" placement (held.go), nil when the case has none
 	n       int
 	tls     bool           // the tracked connections sit below crypto/tls
 	byAddr  map[string]int // address of the client's end -> index of its script
@@ -155,7 +163,7 @@ type connTracker struct {
 func newConnTracker(scripts []ConnScript) *connTracker {
 	return &connTracker{open: map[int]struct{}{}, busy: map[int]struct{}{}, alert: map[int]struct{}{},
 		remote: map[int]string{}, began: map[int]time.Time{}, by: map[int]string{}, closed: map[int]time.Time{}, alertAt: map[int]time.Time{},
-		byAddr: map[string]int{}, scripts: scripts}
+		touched: map[int]time.Time{}, readAt: map[int]time.Time{}, byAddr: map[string]int{}, scripts: scripts}
 }
 
 // bind: the client of script k has dialled from addr.
@@ -259,6 +267,10 @@ func (l *trackListener) Accept() (net.Conn, error) {
 	l.t.open[id] = struct{}{}
 	l.t.remote[id] = c.RemoteAddr().String()
 	l.t.mu.Unlock()
+	if h := l.t.hold; h != nil {
+		// the "accept held" placement: Accept has the connection and returns it only once closing is known
+		h.maybeHold(id)
+	}
 	return &trackConn{Conn: c, t: l.t, id: id, remote: c.RemoteAddr().String(), closing: make(chan struct{})}, nil
 }
 
@@ -271,6 +283,8 @@ type trackConn struct {
 	err     error
 	closing chan struct{} // closed when Close begins
 	wdl     atomic.Int64  // the write deadline in force (UnixNano; 0 = none)
+	used    atomic.Bool   // touch has been recorded
+	wasRead atomic.Bool   // … a Read as well
 }
 
 // Close: the first call does the work — after the scripted latency, during which the socket is still open; every
@@ -304,12 +318,45 @@ func (c *trackConn) Close() error {
 	return c.Conn.Close()
 }
 
+// touch: the proxy uses the socket. handleLoop registers a connection (map entry, counter) before it does anything
+// with it, so a socket the proxy has used is a registered one.
+func (c *trackConn) touch(read bool) {
+	if c.used.Load() && (!read || c.wasRead.Load()) {
+		return
+	}
+	now := time.Now()
+	c.t.mu.Lock()
+	if _, ok := c.t.touched[c.id]; !ok {
+		c.t.touched[c.id] = now
+	}
+	if _, ok := c.t.readAt[c.id]; read && !ok {
+		c.t.readAt[c.id] = now
+	}
+	c.t.mu.Unlock()
+	c.used.Store(true)
+	if read {
+		c.wasRead.Store(true)
+	}
+}
+
+func (c *trackConn) Read(b []byte) (int, error) {
+	c.touch(true)
+	return c.Conn.Read(b)
+}
+
 func (c *trackConn) SetDeadline(t time.Time) error {
+	c.touch(false)
 	c.noteWriteDeadline(t)
 	return c.Conn.SetDeadline(t)
 }
 
+func (c *trackConn) SetReadDeadline(t time.Time) error {
+	c.touch(false)
+	return c.Conn.SetReadDeadline(t)
+}
+
 func (c *trackConn) SetWriteDeadline(t time.Time) error {
+	c.touch(false)
 	c.noteWriteDeadline(t)
 	return c.Conn.SetWriteDeadline(t)
 }
@@ -337,6 +384,7 @@ func isAlertRecord(b []byte) bool {
 // until the peer reads again (the scripted time has passed: the record goes out), until the write deadline (a
 // timeout error, nothing written) or until the socket is closed under it.
 func (c *trackConn) Write(b []byte) (int, error) {
+	c.touch(false)
 	if c.t.tls && isAlertRecord(b) {
 		c.t.mu.Lock()
 		c.t.alert[c.id] = struct{}{}
@@ -498,6 +546,10 @@ func genCtl(r *core.Rand, i int) *Case {
 	c.Conns = append(c.Conns, ConnScript{Phase: "late"})
 	// how long the proxy's Close of each socket takes (drawn last: everything above is what it was)
 	scriptCloses(r, c, []string{"none", "long", "short", "mixed"}[i%4], i%8 == 5)
+	if i%3 == 1 && !c.TLS {
+		// the "accept held" placement (held.go): one more connection, returned by Accept only once closing is known
+		addHeld(c, []string{"send", "wait", "close"}[(i/3)%3], []int{0, 150, 700}[(i/9)%3])
+	}
 	return c
 }
 
@@ -733,6 +785,10 @@ func genCtlClose(r *core.Rand, j int) *Case {
 	}
 	c.Conns = append(c.Conns, ConnScript{Phase: "late"})
 	scriptCloses(r, c, []string{"long", "short", "none"}[(j/3)%3], j%3 == 2)
+	if j%6 == 0 {
+		// (plain listener) a success for certain, with a connection whose Accept returns only once closing is known (held.go)
+		addHeld(c, []string{"send", "wait"}[(j/6)%2], []int{700, 0, 150}[(j/6)%3])
+	}
 	return c
 }
 
@@ -837,6 +893,10 @@ func genRunEnd(r *core.Rand, i int) *Case {
 		// sits on top of the proxy's own listener, which a TLS listener does not allow: martian looks for *tls.Conn)
 		scriptCloses(r, c, []string{"long", "short", "mixed"}[(i/4)%3], false)
 	}
+	if !c.TLS && (end == "drain" || i%3 == 0) {
+		// the "accept held" placement (held.go): in every drain that ends by itself, and in a third of the forced ones
+		addHeld(c, []string{"send", "wait", "close"}[(i/4)%3], []int{700, 0, 150}[(i/4)%3])
+	}
 	return c
 }
 
@@ -933,6 +993,9 @@ func genRunSig(r *core.Rand, i int) *Case {
 		// the drain ends by itself whatever is delivered: Run returns on its Shutdown's success (see genRunEnd)
 		scriptCloses(r, c, []string{"long", "mixed", "long", "short"}[i%4], false)
 	}
+	if c.End == "drain" && !c.TLS && i%2 == 0 {
+		addHeld(c, []string{"send", "wait"}[(i/2)%2], []int{0, 700}[(i/2)%2])
+	}
 	return c
 }
 
@@ -1002,6 +1065,7 @@ func (cr *caseRun) runCalls(out *outcome) {
 				cr.mp.Close()
 				o.OpenIDs, o.BusyIDs, o.AlertIDs = cr.tracker.state()
 				r := cr.log.Add("CR", o.N)
+				o.splitLate(cr)
 				o.RetAt, o.Ret, o.OpenAt, o.BusyAt = r.T, true, len(o.OpenIDs), len(o.BusyIDs)
 				// (what becomes of the sockets that are not closed at this instant is entered at the end of the case: lingerOf)
 				close(returned[i])
@@ -1034,8 +1098,9 @@ func (cr *caseRun) runCalls(out *outcome) {
 			// the instant of the return: which sockets has the proxy not closed, on which is its Close still under way
 			open, busy, alert := cr.tracker.state()
 			r := cr.log.AddRet(o.N, strings.SplitN(resOf(err), ":", 2)[0])
-			o.RetAt, o.Ret, o.Result, o.OpenAt, o.OpenIDs = r.T, true, resOf(err), len(open), open
-			o.BusyAt, o.BusyIDs, o.AlertIDs = len(busy), busy, alert
+			o.OpenIDs, o.BusyIDs, o.AlertIDs = open, busy, alert
+			o.splitLate(cr)
+			o.RetAt, o.Ret, o.Result, o.OpenAt, o.BusyAt = r.T, true, resOf(err), len(o.OpenIDs), len(o.BusyIDs)
 			if err != nil {
 				o.OwnErr = err == ctx.Err() //nolint:errorlint // identity: the very error of this call's context
 				switch {
@@ -1069,6 +1134,17 @@ func (cr *caseRun) runCalls(out *outcome) {
 	out.HaveRet = true
 }
 
+// splitLate keeps in OpenIDs / BusyIDs the sockets the call speaks about (used by the proxy, hence registered, when the
+// call was issued) and moves the others to LateIDs (held.go).
+func (o *callObs) splitLate(cr *caseRun) {
+	issued := cr.log.t0.Add(o.CallAt)
+	var l1, l2 []int
+	o.OpenIDs, l1 = cr.tracker.servedBefore(o.OpenIDs, issued)
+	o.BusyIDs, l2 = cr.tracker.servedBefore(o.BusyIDs, issued)
+	o.LateIDs = append(l1, l2...)
+	sort.Ints(o.LateIDs)
+}
+
 // evaluateCalls: the verdict on every call of a control-call history (rig b).
 func evaluateCalls(ctx *core.Ctx, c *Case, out *outcome, doc caseDoc, h string) {
 	// the calls of the case, the Close and the Shutdown that end every history
@@ -1080,6 +1156,19 @@ func evaluateCalls(ctx *core.Ctx, c *Case, out *outcome, doc caseDoc, h string) 
 		ctx.Count("ctl/call/" + calls[i].label() + "/" + calls[i].Start + "/" + strings.SplitN(o.Result, ":", 2)[0])
 		if !o.Ret {
 			continue // reported as a note
+		}
+		if len(o.LateIDs) > 0 {
+			// sockets accepted and not seen registered when the call was issued: not the call's business at its return, but
+			// they must be closed without service as soon as their handlers can
+			ctx.Count("ctl/late-sockets-at-return/" + o.Op)
+			if o.heldAmong(out) {
+				ctx.Count("ctl/accept-held/open-at-the-return-of/" + o.Op + "/" + strings.SplitN(o.Result, ":", 2)[0])
+			}
+			if why := lateVerdict(o.Late); why != "" || len(o.Late) < len(o.LateIDs) {
+				ctx.SpecFail("connections accepted in the meantime are closed without service", "", doc, h,
+					fmt.Sprintf("call %d (%s %d) returned %v after it was called with socket(s) %v open that the proxy had not used when the call was issued; afterwards: %s",
+						i, o.Op, o.N, o.RetAt-o.CallAt, o.LateIDs, why))
+			}
 		}
 		if o.Op == "close" {
 			// the clause as it reads, judged at the instant of the return: every socket the proxy has accepted is closed —
@@ -1141,6 +1230,16 @@ func evaluateCalls(ctx *core.Ctx, c *Case, out *outcome, doc caseDoc, h string) 
 			}
 		}
 	}
+}
+
+// heldAmong: the connection whose Accept was held is among the late sockets of the call.
+func (o *callObs) heldAmong(out *outcome) bool {
+	for _, l := range o.Late {
+		if l.Held {
+			return true
+		}
+	}
+	return false
 }
 
 // ---- rig a: the end of the drain ----
@@ -1264,9 +1363,14 @@ func deliverSignals(steps []SigStep, cfg []int, stop chan struct{}, first func(s
 }
 
 // firstConfigured: the first delivery (G event) of a signal of the configured set.
-func firstConfigured(evs []*Event, cfg []int) *Event {
+func firstConfigured(evs []*Event, cfg []int, skipFirst bool) *Event {
 	for _, e := range evs {
 		if e.Op == "G" && hasInt(cfg, e.K) {
+			if skipFirst {
+				// (the first one requested the shutdown: hosted in a group, Begin "signal")
+				skipFirst = false
+				continue
+			}
 			return e
 		}
 	}
